@@ -91,6 +91,19 @@ func run(pass *analysis.Pass) (any, error) {
 			return
 		}
 
+		// A tagged switch must not list the same constant twice; the tagless one may.
+		seen := map[string]bool{}
+		for _, pair := range pairs {
+			for _, binexpr := range pair {
+				if tv, ok := pass.TypesInfo.Types[binexpr.Y]; ok && tv.Value != nil {
+					if seen[tv.Value.ExactString()] {
+						return
+					}
+					seen[tv.Value.ExactString()] = true
+				}
+			}
+		}
+
 		edits := make([]analysis.TextEdit, 0, len(swtch.Body.List)+1)
 		for i, stmt := range swtch.Body.List {
 			stmt := stmt.(*ast.CaseClause)
